@@ -268,8 +268,16 @@ def install(reg: Registry):
         """y (heap h) is the copy of node x (heap o): a fresh node with the same scalar fields whose per-node data is fresh"""
         fr = lambda a: z3.And(a >= o.alloc, a < h.alloc)
         opt = lambda f: z3.If(is_VRef(o.f(f, x)), z3.And(is_VRef(h.f(f, y)), fr(v_a(h.f(f, y)))), h.f(f, y) == o.f(f, x))
+        from .c_deepcopy import dict_content
+        j = z3.Int('j!nc')
+        T0, T1 = o.f('tags', x), h.f('tags', y)
+        tags_same = z3.And(h.len(T1) == o.len(T0), h.cls(T1) == CLS_LIST, h.own_obj(T1) == -1,
+                           FA([j], z3.Implies(z3.And(0 <= j, j < o.len(T0), z3.Not(is_VRef(o.at(T0, j)))), h.at(T1, j) == o.at(T0, j)), [h.at(T1, j)]))
+        content = z3.And(tags_same, dict_content(o, h, o.f('extras', x), h.f('extras', y)),
+                         z3.Implies(is_VRef(o.f('ttc', x)), dict_content(o, h, v_a(o.f('ttc', x)), v_a(h.f('ttc', y)))),
+                         z3.Implies(is_VRef(o.f('attributes', x)), dict_content(o, h, v_a(o.f('attributes', x)), v_a(h.f('attributes', y)))))
         return z3.And(fr(y), h.cls(y) == class_id(NODE), *[h.f(f, y) == o.f(f, x) for f in SCALARS],
-                      fr(h.f('tags', y)), fr(h.f('extras', y)), opt('ttc'), opt('attributes'))
+                      fr(h.f('tags', y)), fr(h.f('extras', y)), opt('ttc'), opt('attributes'), content)
 
     def link_list(o, h, y, f):
         L = h.f(f, y)
